@@ -266,7 +266,7 @@ FC = 'gym_gridverse.utils.fast_copy:fast_copy'
 
 
 @contract(target=T + 'chain', args={'state': 'State', 'action': 'Action', 'transition_functions': FN3, 'rng': 'Rng'},
-          kwonly=['transition_functions', 'rng'], props=['C01', 'C02', 'C03', 'C09'])
+          kwonly=['transition_functions', 'rng'], props=['C01', 'C02', 'C03', 'C08', 'C09', 'C10', 'C11'])
 def chain(state, action, transition_functions, rng):
     tfs = transition_functions
     ensures('total', lambda: returned())
@@ -279,17 +279,38 @@ def chain(state, action, transition_functions, rng):
 
 @contract(target=T + 'transition_with_copy',
           args={'transition_function': ('fn', 'None'), 'state': 'State', 'action': 'Action', 'rng': 'Rng'},
-          kwonly=['rng'], stubs={FC: 'State'}, props=['C01', 'C02', 'C03'])
+          kwonly=['rng'], props=['C01', 'C02', 'C03', 'C08', 'C09', 'C10', 'C11'])
 def transition_with_copy(transition_function, state, action, rng):
+    """stated over what the caller can observe (how the copy is made is not prescribed): the transition runs once,
+    on a deep copy that shares nothing mutable with the input, and that copy is returned"""
     s0 = old(state)
     tf = transition_function
     ensures('total', lambda: returned())
-    ensures('copies-first', lambda: ghost_calls(FC) == 1 and ghost_arg(FC, 0, 0) is state)
-    ensures('transition-runs-on-the-copy', lambda: ghost_calls(tf) == 1 and ghost_arg(tf, 0, 0) is ghost_result(FC, 0)
-            and ghost_arg(tf, 0, 0) is not state and ghost_arg(tf, 0, 1) is action and ghost_kwarg(tf, 0, 'rng') is rng
-            and ghost_seq(FC, 0) < ghost_seq(tf, 0))
-    ensures('returns-the-copy', lambda: result() is ghost_result(FC, 0))
+    ensures('transition-runs-once-on-another-state-with-the-same-arguments', lambda: ghost_calls(tf) == 1
+            and ghost_arg(tf, 0, 0) is not state and ghost_arg(tf, 0, 1) is action and ghost_kwarg(tf, 0, 'rng') is rng)
+    ensures('that-state-is-a-copy-of-the-input', lambda: same(ghost_arg(tf, 0, 0), s0))
+    ensures('returns-the-transitioned-copy', lambda: result() is ghost_arg(tf, 0, 0))
     ensures('input-state-untouched', lambda: same(state, s0))
+    ensures('shares-no-mutable-component', lambda: result().grid is not state.grid and result().agent is not state.agent
+            and result().agent.transform is not state.agent.transform and result().grid.objects is not state.grid.objects)
+    ensures_native('shares-no-row-and-no-mutable-object', lambda: all(
+        a is not b for a, b in zip(result().grid.objects, state.grid.objects)) and disjoint_mutable_objects(result(), state))
+    ensures('no-own-draw', lambda: draws(rng) == 0)
+
+
+def disjoint_mutable_objects(a, b):
+    """no Door / Box instance (also inside boxes, also the held item) of one state is an object of the other (native)"""
+    def collect(s):
+        out = []
+        objs = [o for row in s.grid.objects for o in row] + [s.agent.grid_object]
+        for o in objs:
+            while isinstance(o, (Door, Box)):
+                out.append(id(o))
+                if not isinstance(o, Box):
+                    break
+                o = o.content
+        return set(out)
+    return not (collect(a) & collect(b))
 
 
 # ------------------------------------------------------------------ closure (C01) and the kinematic invariant (C08)
